@@ -10,8 +10,14 @@ import (
 // (the representation invariant is asserted at every round head, so an invariant
 // that is too strong shows up here) and the FIFO / completeness check of C02.
 
+// gosym: mode=int
+func VerifC02_run() { c02Run(divider.Fair) }
+
+// the same run with Rate under uninterpreted float arithmetic (over-approximating: a counterexample is a candidate)
 // gosym: mode=int fp=uf
-func VerifC02_run() {
+func VerifC02_run_rate() { c02Run(divider.Rate) }
+
+func c02Run(dv divider.Divider) {
 	n := vParam("n", 2)
 	H := uint(vParam("H", 2))
 	J := vParam("J", 2)
@@ -63,10 +69,6 @@ func VerifC02_run() {
 		}
 	}
 	vDistinct(tags...)
-	var dv divider.Divider = divider.Fair
-	if vChoose("divider", 2) == 1 {
-		dv = divider.Rate
-	}
 	d, err := New(Opts[int]{Divider: dv, HandlersQuantity: H, Inputs: inputs})
 	if err != nil {
 		vExpect("NOREACH", "ok")
